@@ -60,6 +60,26 @@ func cmdC02(args []string) {
 			c02CheckHeld(res)
 		}
 	}
+	// values exactly at / just below a documented cap of the decoder
+	for i := range vf.B {
+		b := &vf.B[i]
+		enc := toBytes(b.Bytes)
+		res.Evaluations++
+		cse := map[string]interface{}{"kind": b.Kind, "n": b.N, "bytes": len(enc)}
+		var got interface{}
+		var unread int
+		var derr error
+		if p := guard(func() { got, unread, derr = decValue(enc) }); p != nil || derr != nil {
+			res.Fail("value/decode-error/at-cap/"+b.Kind, fmt.Sprintf("a %s of %d elements is refused: %v %v", b.Kind, b.N, p, derr), cse)
+			continue
+		}
+		val, _ := got.(value.Value)
+		var buf bytes.Buffer
+		if val == nil || unread != 0 || val.Write(&buf) != nil || !bytes.Equal(buf.Bytes(), enc) {
+			res.Fail("value/reencode/at-cap/"+b.Kind, fmt.Sprintf("a %s of %d elements does not round-trip (unread %d)", b.Kind, b.N, unread), cse)
+		}
+	}
+	res.SetExtra("cap_boundary_values", len(vf.B))
 	// the same encodings served with the last bytes and io.EOF in one Read
 	inDataEOF = true
 	for i := range vf.V {
@@ -278,12 +298,17 @@ func cmdC03(args []string) {
 		sh := shape(v.T, v.V)
 		shapes[sh]++
 		c03Vector(res, v, sh, distinct, proto, agree)
+		if len(c03Held) >= 64 || i == len(vf.V)-1 {
+			c03CheckHeld(res)
+		}
 	}
+	c03CheckHeld(res)
 	res.Distinct = len(distinct)
 	res.SetExtra("vectors", len(vf.V))
 	res.SetExtra("shapes", shapes)
 	res.SetExtra("generated_codecs_agree", agree)
 	res.SetExtra("decode_into_library_go_type", c03TypedStats)
+	res.SetExtra("held_reader_results_rechecked", c03Rechecked)
 	emit(res)
 }
 
@@ -349,6 +374,9 @@ func c03Vector(res *hlib.Result, v *Vector, sh string, distinct map[string]bool,
 					if !bytes.Equal(b, enc) {
 						res.Fail("sigreader/bytes/"+sh,
 							fmt.Sprintf("returned %d bytes %v, consumed encoding is %d bytes %v", len(b), b, len(enc), enc), mkCase(v, in, sh))
+					} else if len(tail) == 0 {
+						// what the reader returned must stay what it was while other data is read
+						c03Held = append(c03Held, heldBytes{b: b, enc: enc, v: v, sh: sh})
 					}
 				}
 			}
@@ -412,6 +440,29 @@ func c03Vector(res *hlib.Result, v *Vector, sh string, distinct map[string]bool,
 }
 
 var c03TypedStats = map[string]int{}
+
+type heldBytes struct {
+	b, enc []byte
+	v      *Vector
+	sh     string
+}
+
+var (
+	c03Held      []heldBytes
+	c03Rechecked int
+)
+
+func c03CheckHeld(res *hlib.Result) {
+	for _, h := range c03Held {
+		c03Rechecked++
+		res.Evaluations++
+		if !bytes.Equal(h.b, h.enc) {
+			res.Fail("sigreader/bytes-changed-after-later-reads/"+h.sh,
+				fmt.Sprintf("the bytes returned earlier now read %v; the encoding is %v", h.b, h.enc), mkCase(h.v, h.enc, h.sh))
+		}
+	}
+	c03Held = c03Held[:0]
+}
 
 func c03Typed(res *hlib.Result, v *Vector, sh, sig string, gv reflect.Value, canon []byte) {
 	var typ reflect.Type
